@@ -436,6 +436,7 @@ type op struct {
 	state string // start
 	q     [][2]string
 	post  bool
+	cq    cbq // when set: replaces q (and post)
 	tokOK bool
 	apply bool
 	during []op  // start / callback: operations that run re-entrantly inside this request (see runner)
@@ -650,14 +651,23 @@ func (x *runner) exec(o op) {
 		x.j = apply(x.j, cs)
 	case "callback":
 		var req *http.Request
+		if o.cq.q != nil {
+			o.q = o.cq.q
+		}
 		form := o.q
-		if o.post {
+		switch {
+		case o.cq.nbody > 0: // leading parameters in the body, the rest in the URL
+			nb := o.cq.nbody
+			req = httptest.NewRequest("POST", "https://rp.example/cb?"+encodeQuery(o.q[nb:]), strings.NewReader(encodeQuery(o.q[:nb])))
+			req.Header.Set("Content-Type", "application/x-www-form-urlencoded")
+			o.post = true
+		case o.post:
 			// half of the parameters in the body, all of them in the URL: body values win
 			half := o.q[:(len(o.q)+1)/2]
 			req = httptest.NewRequest("POST", "https://rp.example/cb?"+encodeQuery(o.q), strings.NewReader(encodeQuery(half)))
 			req.Header.Set("Content-Type", "application/x-www-form-urlencoded")
 			form = append(append([][2]string{}, half...), o.q...)
-		} else {
+		default:
 			req = httptest.NewRequest("GET", "https://rp.example/cb?"+encodeQuery(o.q), nil)
 		}
 		attach(req, x.j) // the request carries the jar as it is NOW
@@ -799,24 +809,59 @@ func nearMiss(r drv.Rand, s string) string {
 	return s + "x"
 }
 
-func callbackQuery(r drv.Rand, state string, code string) [][2]string {
+// cbq is the shape of a callback request: the parameters in r.FormValue order
+// (body first), and how many of the leading ones travel in a POST body
+// (0 = plain GET unless the operation says post).
+type cbq struct {
+	q     [][2]string
+	nbody int
+}
+
+// callbackQuery: query shapes as a dimension - state present / ABSENT / empty /
+// duplicated (same or different values, first or last one matching) / in the POST
+// body vs. the URL, with and without code and error parameters.
+func callbackQuery(r drv.Rand, state string, code string) cbq {
 	if r.Chance(1, 5) {
 		state = nearMiss(r, state)
 	}
+	other := "other-" + state
 	q := [][2]string{{"code", code}, {"state", state}}
-	switch r.IntN(12) {
+	nbody := 0
+	switch r.IntN(24) {
 	case 0:
 		q = [][2]string{{"state", state}, {"error", "access_denied"}, {"error_description", "user said no"}}
 	case 1:
 		q = [][2]string{{"error", "server_error"}, {"state", state}, {"code", code}}
-	case 2: // duplicate state: the first one counts
-		q = append(q, [2]string{"state", "other-" + state})
+	case 2: // duplicate state, the first one is the login's
+		q = append(q, [2]string{"state", other})
 	case 3:
 		q = [][2]string{{"state", state}} // no code
 	case 4:
 		q = append([][2]string{{"error", ""}}, q...)
+	case 5, 6: // no state parameter at all
+		q = [][2]string{{"code", code}}
+	case 7: // no state parameter, error response
+		q = [][2]string{{"error", "access_denied"}}
+	case 8: // duplicate state, the last one is the login's
+		q = [][2]string{{"state", other}, {"code", code}, {"state", state}}
+	case 9: // the same state twice
+		q = [][2]string{{"state", state}, {"state", state}, {"code", code}}
+	case 10: // an empty state parameter before the login's
+		q = [][2]string{{"state", ""}, {"state", state}, {"code", code}}
+	case 11: // the login's state before an empty one
+		q = [][2]string{{"state", state}, {"state", ""}, {"code", code}}
+	case 12: // body carries the login's state, URL another one
+		q, nbody = [][2]string{{"state", state}, {"code", code}, {"state", other}}, 1
+	case 13: // body carries another state, URL the login's
+		q, nbody = [][2]string{{"state", other}, {"code", code}, {"state", state}}, 1
+	case 14: // code in the body, state in the URL
+		q, nbody = [][2]string{{"code", code}, {"state", state}}, 1
+	case 15: // everything in the body
+		q, nbody = [][2]string{{"code", code}, {"state", state}}, 2
+	case 16: // body without state, URL without state
+		q, nbody = [][2]string{{"code", code}, {"foo", "bar"}}, 1
 	}
-	return q
+	return cbq{q: q, nbody: nbody}
 }
 
 // all interleavings of n logins S_i and their callbacks C_i with S_i before C_i
@@ -948,7 +993,7 @@ func main() {
 			if r.Chance(1, 6) {
 				qs = drv.Pick(r, []string{"", s + "x", "st-9", strings.ToUpper(s)})
 			}
-			ops = []op{{kind: "callback", q: callbackQuery(r, qs, "code-1"), post: r.Chance(1, 5), tokOK: r.Chance(4, 5), apply: true}}
+			ops = []op{{kind: "callback", cq: callbackQuery(r, qs, "code-1"), post: r.Chance(1, 5), tokOK: r.Chance(4, 5), apply: true}}
 		case kind < 6: // every ordering of 2 or 3 concurrent logins and their callbacks
 			ords := ord2
 			if ordIdx%4 == 3 || !cfg.Quick {
@@ -968,7 +1013,7 @@ func main() {
 				if x > 0 {
 					ops = append(ops, op{kind: "start", state: states[x-1]})
 				} else {
-					ops = append(ops, op{kind: "callback", q: callbackQuery(r, states[-x-1], fmt.Sprintf("code-%d", -x)),
+					ops = append(ops, op{kind: "callback", cq: callbackQuery(r, states[-x-1], fmt.Sprintf("code-%d", -x)),
 						post: r.Chance(1, 8), tokOK: r.Chance(5, 6), apply: r.Chance(7, 8)})
 				}
 			}
@@ -980,7 +1025,7 @@ func main() {
 				st = []string{pickState(r), pickState(r), "st-3", pickState(r)}
 			}
 			cb := func(k int) op {
-				return op{kind: "callback", q: callbackQuery(r, st[k], fmt.Sprintf("code-%d", k+1)), post: r.Chance(1, 8), tokOK: r.Chance(5, 6), apply: r.Chance(7, 8)}
+				return op{kind: "callback", cq: callbackQuery(r, st[k], fmt.Sprintf("code-%d", k+1)), post: r.Chance(1, 8), tokOK: r.Chance(5, 6), apply: r.Chance(7, 8)}
 			}
 			good := func(k int) op { // a callback that is meant to reach the token endpoint
 				return op{kind: "callback", q: [][2]string{{"code", fmt.Sprintf("code-%d", k+1)}, {"state", st[k]}}, tokOK: r.Chance(5, 6), apply: true}
@@ -1051,12 +1096,12 @@ func main() {
 					if r.Chance(1, 10) {
 						s = "unknown"
 					}
-					o := op{kind: "callback", q: callbackQuery(r, s, fmt.Sprintf("code-%d", len(ops))),
+					o := op{kind: "callback", cq: callbackQuery(r, s, fmt.Sprintf("code-%d", len(ops))),
 						post: r.Chance(1, 8), tokOK: r.Chance(5, 6), apply: r.Chance(5, 6)}
 					if r.Chance(1, 6) { // overlapped by another login and its callback
 						s2 := pickState(r)
 						o.during = []op{{kind: "start", state: s2},
-							{kind: "callback", q: callbackQuery(r, s2, "code-n"), tokOK: r.Chance(5, 6), apply: true}}
+							{kind: "callback", cq: callbackQuery(r, s2, "code-n"), tokOK: r.Chance(5, 6), apply: true}}
 						started = append(started, s2)
 					}
 					ops = append(ops, o)
@@ -1102,7 +1147,7 @@ func main() {
 			Human: map[string]any{"config": fmt.Sprintf("%+v", c), "jar": j0.coq(), "steps": res.human}})
 	}
 	err = w.Close(emit.Meta{Property: "C17", Tier: cfg.Tier, Seed: cfg.Seed,
-		Rule: "each case = one RP configuration (PKCE, JWT profile, client, redirect URI, scopes, URL options, auth style, cookie keys: hash key of 16/32/33/48/64/65/100 bytes, block key none/16/24/32) + initial jar + history in one browser jar. kind=pair: scripted jar (valid / other value / minted by a foreign CookieHandler whose keys are near misses of the RP's: differing tail behind a 64/32/16/8-byte prefix, prefix or extension of the hash key, same hash key with other block key, first byte, unrelated / other name / swapped / truncated / flipped / random / plaintext / missing / duplicate cookies) and one callback query; kind=ordering: every interleaving of 2 or 3 logins and their callbacks, cycled; kind=overlap: requests that run re-entrantly, on the same handler values, inside another request's option evaluation: login inside login (1st of 2, 2nd of 3, twice, after a finished flow), login+callback inside a callback, double-submitted callback, callback inside a login; states: short / empty / non-ASCII / 255-2000 bytes with shared prefixes / too long for the cookie; every 5th callback state is a near miss (prefix, suffix, case, one byte, cut at 64/128/255/256/257, tampered tail); kind=history: random logins (some overlapped), callbacks (GET/POST, lost responses), deletions and unacceptable foreign cookie writes; kind=replay: histories that also re-insert older validly minted cookies. Non-trivial = the model's path class != 0 (anything beyond 'no state cookie in the jar'); distinct = distinct (input, path).",
+		Rule: "each case = one RP configuration (PKCE, JWT profile, client, redirect URI, scopes, URL options, auth style, cookie keys: hash key of 16/32/33/48/64/65/100 bytes, block key none/16/24/32) + initial jar + history in one browser jar. kind=pair: scripted jar (valid / other value / minted by a foreign CookieHandler whose keys are near misses of the RP's: differing tail behind a 64/32/16/8-byte prefix, prefix or extension of the hash key, same hash key with other block key, first byte, unrelated / other name / swapped / truncated / flipped / random / plaintext / missing / duplicate cookies) and one callback query; kind=ordering: every interleaving of 2 or 3 logins and their callbacks, cycled; kind=overlap: requests that run re-entrantly, on the same handler values, inside another request's option evaluation: login inside login (1st of 2, 2nd of 3, twice, after a finished flow), login+callback inside a callback, double-submitted callback, callback inside a login; states: short / empty / non-ASCII / 255-2000 bytes with shared prefixes / too long for the cookie; callback query shapes: state present / absent / empty / duplicated (same, different, first or last matching) / in the POST body vs the URL, with or without code and error; every 5th callback state is a near miss (prefix, suffix, case, one byte, cut at 64/128/255/256/257, tampered tail); kind=history: random logins (some overlapped), callbacks (GET/POST, lost responses), deletions and unacceptable foreign cookie writes; kind=replay: histories that also re-insert older validly minted cookies. Non-trivial = the model's path class != 0 (anything beyond 'no state cookie in the jar'); distinct = distinct (input, path).",
 		Extra: map[string]any{"orderings_2": len(ord2), "orderings_3": len(ord3), "ordering_cases": ordIdx, "dropped": dropped},
 	})
 	if err != nil {
